@@ -62,6 +62,21 @@ CLAIMS = {
             "an independent exact definition. All vectors of <=4 entries over 0..4 are enumerated completely.",
             "The oracle never calls prtpy; the weighted objective is compared within 1e-12 relative tolerance.",
             "DESIGN.md 6/C20"),
+    "C12": ("exploration", "property-based testing against a DP optimum under the cardinality bound + bounded-exhaustive enumeration",
+            "cbldm is run on generated inputs of up to 12 items (zeros, repeats, all-ones, few-big-many-small) with the "
+            "default bound and bounds 1,2,3,random; the result must be a true 2-partition, obey the bound and attain the "
+            "minimum difference over all subsets obeying it. All multisets of <=8 values from 0..4 x bounds 1..4 are "
+            "enumerated completely in both tiers, plus a skewed big/small family where the bound binds.",
+            "Oracle = DP over (cardinality, sum) states validated against 2^n brute force at start; no time limit.",
+            "DESIGN.md 6/C12"),
+    "C19": ("exploration", "property-based testing with an exception oracle (negative testing with a positive control)",
+            "Valid packing inputs with 1-3 oversize items inserted at generated positions for all five packers x five input "
+            "formats x all ten output types must raise ValueError; cbldm with exactly one invalid argument (bin count, "
+            "negative item at a generated position, non-positive time limit, non-positive or non-integral cardinality bound) "
+            "must raise ValueError; the sums-only manager's numitems must raise. Each refusal is paired with a control call "
+            "without the invalid element that must be answered.",
+            "Integral floats / numpy ints are not treated as invalid bounds.",
+            "DESIGN.md 6/C19"),
 }
 
 
